@@ -116,5 +116,62 @@ fn c04_skip_len_8() {
     skip_len_n::<8>()
 }
 
+
+// ------------------------------------------------------------------------------------------
+// C04 (a): the identity of a scalar key is its text and tag - never its quoting style.
+// ------------------------------------------------------------------------------------------
+fn any_style() -> ScalarStyle {
+    let k: u8 = kani::any();
+    match k % 5 {
+        0 => ScalarStyle::Plain,
+        1 => ScalarStyle::SingleQuoted,
+        2 => ScalarStyle::DoubleQuoted,
+        3 => ScalarStyle::Literal,
+        _ => ScalarStyle::Folded,
+    }
+}
+
+fn any_key_tag() -> SfTag {
+    let k: u8 = kani::any();
+    match k % 3 {
+        0 => SfTag::None,
+        1 => SfTag::String,
+        _ => SfTag::Int,
+    }
+}
+
+fn scalar_key(text: &'static str, tag: SfTag, style: ScalarStyle) -> KeyNode<'static> {
+    KeyNode::Scalar {
+        events: vec![Ev::Scalar {
+            value: Cow::Borrowed(text),
+            tag,
+            raw_tag: None,
+            style,
+            anchor: kani::any(),
+            location: loc0(),
+        }],
+        location: loc0(),
+    }
+}
+
+#[kani::proof]
+#[kani::unwind(6)]
+fn c04_scalar_key_identity() {
+    let (t1, t2) = (any_key_tag(), any_key_tag());
+    let same_text: bool = kani::any();
+    let a = scalar_key("k", t1, any_style());
+    let b = scalar_key(if same_text { "k" } else { "j" }, t2, any_style());
+    let fa = a.fingerprint().into_owned();
+    let fb = b.fingerprint().into_owned();
+    let equal = fa == fb;
+    assert!(equal == (same_text && t1 == t2), "key identity is not exactly (scalar text, tag): quoting style or anchor leaked in, or text/tag ignored");
+    kani::cover!(equal, "repeated key recognised");
+    kani::cover!(!equal, "distinct keys kept apart");
+    std::mem::forget(fa);
+    std::mem::forget(fb);
+    std::mem::forget(a);
+    std::mem::forget(b);
+}
+
 // concrete-playback slot: bin/check writes the solver counterexample here as a unit test for native replay
 include!("/verif/.build/playback/de_pb.rs");
